@@ -786,7 +786,9 @@ class TradingEnvXY(TradingEnv):
         start = max(X.first_valid_index(), Y.first_valid_index())
         end = min(X.last_valid_index(), Y.last_valid_index())
         Y = Y.loc[start:end]
-        timesteps = Y.drop([t for t in holidays if t in Y.index]).index
+        # Compare calendar dates, so that intraday rows of a holiday are dropped too.
+        is_holiday = Y.index.normalize().isin(pd.DatetimeIndex(holidays))
+        timesteps = Y.index[~is_holiday]
         timesteps = timesteps[window:]
         return timesteps
 
